@@ -1,3 +1,2 @@
 import PieModel.Props.C18
-open PieModel
-#print axioms C18_placeholder
+#print axioms PieModel.C18_placeholder
